@@ -692,13 +692,13 @@ func init() {
 	register(&Check{
 		ID:    "C13",
 		Level: "model_checking",
-		Rule: "trips of 17 / 33 / 65 updates in which one arrival or departure time of one update (every index) is moved by 2^8, 2^16 or 2^24 s; trips with 1..1025 stop time updates differing in one place (last update's time / stop / departure, a middle update, one update fewer, first and last swapped, a time moved by 256 s or 65536 s; stops identified by id or by sequence only); all trips/vehicles within k deviations (quick k<=2, thorough k<=5 trips / k<=4 vehicles) of the bases {empty, full, mixed} x field alphabets (long twins of 33 / 257 / 4097 bytes differing in the last byte; adjacent strings over {'',a,ab,b, a NUL b, b NUL b, 'a,b', 0x01 a}, nil/zero/non-zero optionals, numeric twins that agree in their low 8/16/32 bits or as float32, 0-3 updates with index-dependent defaults); " +
+		Rule: "trips of 17 / 33 / 65 updates in which one arrival or departure time of one update (every index) is moved by 2^8, 2^16 or 2^24 s; trips with 1..1025 stop time updates differing in one place (last update's time / stop / departure, a middle update, one update fewer, first and last swapped, a time moved by 256 s or 65536 s; stops identified by id or by sequence only); all trips/vehicles within k deviations (quick k<=2, thorough k<=3: every value is kept for the cross-execution relation, more does not fit the memory of the machine) of the bases {empty, full, mixed} x field alphabets (long twins of 33 / 257 / 4097 bytes differing in the last byte; adjacent strings over {'',a,ab,b, a NUL b, b NUL b, 'a,b', 0x01 a}, nil/zero/non-zero optionals, numeric twins that agree in their low 8/16/32 bits or as float32, 0-3 updates with index-dependent defaults); " +
 			"non-trivial = distinct data keys with an id or at least one update; oracle = global bijection hash-input-stream <-> data key plus per-value invariance under copy/zone/flag/back-reference",
 		Assumptions: []string{"the hash input is the concatenation of the byte slices written to the hash.Hash", "instants have whole-second resolution (as produced by the parser)"},
 		Scenarios: func(tier string) []*Scenario {
 			k, kv := 2, 2
 			if tier == "thorough" {
-				k, kv = 5, 4
+				k, kv = 3, 3 // (every value is kept for the cross-execution relations: 4 and more deviations need more memory than the machine has)
 			}
 			return []*Scenario{
 				{Name: "trip/empty", Bound: k, Run: c13Trip("empty")},
